@@ -252,6 +252,13 @@ def common(ctx, prop):
         cases = pick(ctx, gen, 160, 32) if ctx.quick else pick(ctx, gen, 3000, 600)
         cases += extra_scenarios(ctx, 24 if ctx.quick else 200)
         if prop == "C05":
+            # design level, parse side: termination and faithful failure with BUILD errors / missing targets, and the
+            # variant in which Run() waits for parse goroutines (never terminates behind a failed package)
+            vlib.tlc(ctx, "ParseSched", "MC_ParseSched.cfg", timeout=900)
+            if not ctx.quick:
+                vlib.tlc(ctx, "ParseSched", "MC_ParseSched_missing.cfg", timeout=900)
+            wp = vlib.tlc(ctx, "ParseSched", "MC_ParseSched_waitparses.cfg", timeout=900, allow_violation=True)
+            ctx.extra["model_waiting_for_parse_goroutines_counterexample"] = wp.invariant
             # parse-time faults (undefined dependency, missing package, BUILD-file error): property-level scenarios
             pf = []
             for cfg in (("GEN_SchedScenarios_2.cfg", "GEN_SchedScenarios_kg_2.cfg") if ctx.quick else ("GEN_SchedScenarios.cfg", "GEN_SchedScenarios_kg.cfg")):
